@@ -77,6 +77,15 @@ CLAIMED = {
              "flag, unlink only when owner); descriptor closed exactly once on every path; lock semaphore on the same key with value 1 and "
              "CREATE iff creator, lock/unlock wiring; the field munmap uses as length equals the mapped length and is frozen while mapped. " + DECIDES % "C07",
         technique="path-sensitive typestate (descriptor open/closed, role creator/follower, size provenance) with guard facts; frozen-field rule between mmap and munmap"),
+    "C08": dict(
+        text="Rules C08.1-C08.6 on pshmbuffer.c (+ the reported-size half of C08.4 on pshm-posix.c): every segment access and every call of "
+             "the unlocked space helpers lies between a successful lock and unlock, every path unlocks; stored positions are (old + n) % size "
+             "computed from the word loaded under the same lock; the ring is written only after 'free < len' tested false, refusal returns 0 "
+             "untouched, read takes min(used, len); for each of the three orderings of the positions used + free + 1 == size with no "
+             "negative subtraction (linear normaliser, no solver); contiguous copy only under start+n<=size, wrapped copy lengths/offsets "
+             "identities, copied total == position advance; the ring modulus derives only from the size the shm layer reports. One known "
+             "finding (reported size of an existing segment depends on the opener's argument). " + DECIDES % "C08",
+        technique="term-valued path-sensitive dataflow with lock typestate; linear-form normalisation of the space/copy identities over the finite set of position orderings"),
 }
 
 NOT_YET = "check not yet armed (framework under construction); see DESIGN.md section 4 for the planned structural clauses"
